@@ -1746,7 +1746,7 @@ pub fn run_c15(tier: Tier) -> i32 {
     t.encodes += sockets_run;
     finish_grid("C15", tier, start, t.encodes + t.decodes + t.chan_histories, t.distinct.len() as u64, &t.failures,
         json!({"encodes": t.encodes, "decodes": t.decodes, "channel_histories": t.chan_histories, "error_kinds_listed": KINDS.len(), "jobs": jobs.len(), "socket_cells_run": sockets_run, "socket_cells_not_run_because_the_sandbox_has_no_such_socket": sockets_unavailable}),
-        "message corpus (all variants; ids {0,1,2^63,u64::MAX}; bodies {empty,'a',unicode,64KiB}; every io::ErrorKind constant listed in the harness; trace contexts zero/max/mixed; both sampling decisions) as sequences of length 1-3, through the real serde_transport with Json and Bincode over an in-memory byte medium: every write policy w in {1,2,3,5,8,13,inf} x {with,without} alternating Pending must produce the same bytes; every cut of the byte stream into <=3 read chunks (all positions for streams <=200 bytes, all positions within +-5 of frame boundaries and the stream ends otherwise) x {with,without} Pending between chunks must read the same items then end-of-stream; every truncation inside a frame must yield the complete frames then an error; every ErrorKind round-trips per the 18-entry table; hand-written JSON frames without optional fields decode to the defaults; the shipped tcp and unix socket transports with {default, 2-byte, 8-byte, little-endian length prefix, frame limit raised to 32 MiB, lowered to 1 KiB} configured alike on the listening and the connecting end x both codecs: bodies of every size class travel intact both ways, then end-of-stream; in-memory channels: all histories over {send,recv,drop writer} up to the depth for unbounded and bounded(0,1,2). distinct_nontrivial = distinct (sequence, codec, fragmentation plan) cases",
+        "message corpus (all variants; ids {0,1,2^63,u64::MAX}; bodies {empty,'a',unicode,64KiB}; every io::ErrorKind constant listed in the harness; trace contexts zero/max/mixed; both sampling decisions) as sequences of length 1-3, through the real serde_transport with Json and Bincode over an in-memory byte medium: every write policy w in {1,2,3,5,8,13,inf} x {with,without} alternating Pending must produce the same bytes; every cut of the byte stream into <=3 read chunks (all positions for streams <=200 bytes, all positions within +-5 of frame boundaries and the stream ends otherwise) x {with,without} Pending between chunks must read the same items then end-of-stream; every truncation inside a frame must yield the complete frames then an error; every ErrorKind round-trips per the 18-entry table; hand-written JSON frames without optional fields decode to the defaults; the shipped tcp and unix socket transports with {default, 2-byte, 8-byte, little-endian length prefix, frame limit raised to 32 MiB, lowered to 1 KiB} configured alike on the listening and the connecting end (also: configured after the listener has accepted a first connection) x both codecs: bodies of every size class travel intact both ways, then end-of-stream; in-memory channels: all histories over {send,recv,drop writer} up to the depth for unbounded and bounded(0,1,2). distinct_nontrivial = distinct (sequence, codec, fragmentation plan) cases",
         t.samples.iter().map(|c| json!({"case": c})).chain([json!({"case": "bounded(1) history [Send, Send, Recv, DropWriter, Recv, Recv] (one of the channel histories, all enumerated)"})]).collect(),
     )
 }
@@ -1773,12 +1773,18 @@ fn check_sockets(st: &mut CStats, sockets_run: &mut u64, sockets_unavailable: &m
     let _ = std::fs::create_dir_all(&dir);
     for kind in ["tcp", "unix"] {
         for codec in [Codec::Json, Codec::Bincode] {
-          for drop_writer in [false, true] {
+          // (warm: the listener has already accepted a connection - with the default framing -
+          // when it is configured: `config_mut()` applies to the connections accepted afterwards;
+          // seeded change C15n froze the listener's framing at its first accept)
+          for (drop_writer, warm) in [(false, false), (true, false), (false, true)] {
             for (fi, (fname, apply, sizes)) in framings.iter().enumerate() {
                 if drop_writer && fi > 1 {
                     continue;
                 }
-                let label = format!("{kind} {codec:?} with {fname} on both ends{}", if drop_writer { ", writer dropped without close" } else { "" });
+                if warm && fi == 0 {
+                    continue;
+                }
+                let label = format!("{kind} {codec:?} with {fname} on both ends{}{}", if drop_writer { ", writer dropped without close" } else { "" }, if warm { ", configured after the listener had accepted a first connection" } else { "" });
                 let sizes = sizes.clone();
                 let apply = *apply;
                 let sock_path = dir.join(format!("s{fi}-{codec:?}.sock"));
@@ -1865,8 +1871,13 @@ fn check_sockets(st: &mut CStats, sockets_run: &mut u64, sockets_unavailable: &m
                                     Ok(i) => i,
                                     Err(e) => return Err(format!("UNAVAILABLE {e}")),
                                 };
-                                apply(incoming.config_mut());
                                 let addr = incoming.local_addr();
+                                if warm {
+                                    let first: tarpc::serde_transport::Transport<_, Response<String>, ClientMessage<String>, _> = tarpc::serde_transport::tcp::connect(addr, $mk).await.map_err(|e| format!("first connect: {e}"))?;
+                                    let accepted: tarpc::serde_transport::Transport<_, ClientMessage<String>, Response<String>, _> = incoming.next().await.ok_or("listener ended")?.map_err(|e| format!("first accept: {e}"))?;
+                                    drop((first, accepted));
+                                }
+                                apply(incoming.config_mut());
                                 let mut connect = tarpc::serde_transport::tcp::connect(addr, $mk);
                                 apply(connect.config_mut());
                                 let client: tarpc::serde_transport::Transport<_, Response<String>, ClientMessage<String>, _> = connect.await.map_err(|e| format!("connect: {e}"))?;
@@ -1877,6 +1888,11 @@ fn check_sockets(st: &mut CStats, sockets_run: &mut u64, sockets_unavailable: &m
                                     Ok(i) => i,
                                     Err(e) => return Err(format!("UNAVAILABLE {e}")),
                                 };
+                                if warm {
+                                    let first: tarpc::serde_transport::Transport<_, Response<String>, ClientMessage<String>, _> = tarpc::serde_transport::unix::connect(&sock_path, $mk).await.map_err(|e| format!("first connect: {e}"))?;
+                                    let accepted: tarpc::serde_transport::Transport<_, ClientMessage<String>, Response<String>, _> = incoming.next().await.ok_or("listener ended")?.map_err(|e| format!("first accept: {e}"))?;
+                                    drop((first, accepted));
+                                }
                                 apply(incoming.config_mut());
                                 let mut connect = tarpc::serde_transport::unix::connect(&sock_path, $mk);
                                 apply(connect.config_mut());
@@ -1895,7 +1911,7 @@ fn check_sockets(st: &mut CStats, sockets_run: &mut u64, sockets_unavailable: &m
                 match res {
                     Ok(Ok(())) => {
                         *sockets_run += 1;
-                        st.distinct.insert(hash_of(&("socket", kind, codec, fi, drop_writer)));
+                        st.distinct.insert(hash_of(&("socket", kind, codec, fi, drop_writer, warm)));
                         if st.samples.len() < 3 {
                             st.samples.push(format!("{label}: bodies of {sizes:?} bytes each way, then the writer is dropped"));
                         }
